@@ -272,6 +272,33 @@ def patchKernelFor (mode : PatchMode) (alpha : Nat) (clamp : Bool) (chanIdx cc :
     if chanIdx == alpha + cc then (if swapped then some .replace else some .skip)
     else some (.mulAdd clamp swapped)
 
+def PatchMode.ofCode : Nat → PatchMode
+  | 0 => .none | 1 => .replace | 2 => .add | 3 => .mul | 4 => .blendAbove | 5 => .blendBelow
+  | 6 => .mulAddAbove | _ => .mulAddBelow
+
+def PatchMode.usesAlpha : PatchMode → Bool
+  | .blendAbove | .blendBelow | .mulAddAbove | .mulAddBelow => true
+  | _ => false
+
+/-- `blend::patch` at one pixel position of one target: `base` / `ref` are the samples of every
+channel (colour first) of the canvas and of the reference frame there; `infos[0]` is the blending
+of the colour channels, `infos[1 + e]` of extra channel `e` (mode, alpha channel, clamp). Channels
+are processed in order, so a channel after the alpha channel reads the canvas alpha ALREADY
+updated by the patch (the Rust loop mutates the canvas channel by channel). -/
+def patchPixel {α : Type} [Scalar α] (cc : Nat) (ecAlphaAssoc : List (Option Bool))
+    (infos : List (PatchMode × Nat × Bool)) (base ref : List α) : List α :=
+  (List.range base.length).foldl (fun cur idx =>
+    let info := if idx < cc then infos.getD 0 (.none, 0, false) else infos.getD (idx - cc + 1) (.none, 0, false)
+    let mode := info.1
+    let alpha := info.2.1
+    let clamp := info.2.2
+    match patchKernelFor mode alpha clamp idx cc (ecAlphaAssoc.getD alpha none) with
+    | none => cur
+    | some k =>
+      let ba := if mode.usesAlpha then cur.getD (alpha + cc) Scalar.zero else Scalar.zero
+      let na := if mode.usesAlpha then ref.getD (alpha + cc) Scalar.zero else Scalar.zero
+      cur.set idx (k.apply (cur.getD idx Scalar.zero) (ref.getD idx Scalar.zero) ba na)) base
+
 /-! ## 3. Spec: the sequential compositor (generic in the canvas value) -/
 
 /-- A multi-frame image as the compositor sees it: the headers in bitstream order (already cut
